@@ -3,6 +3,7 @@ package checks
 import (
 	"encoding/json"
 	"fmt"
+	"io"
 	"sort"
 	"strings"
 
@@ -113,9 +114,18 @@ func concHarness(raw json.RawMessage, cfg vrt.Config) (vrt.Result, Outcome) {
 					if !ok1 || !ok2 {
 						continue // an earlier operation of this client failed to produce the handle
 					}
+					switch o.K {
+					case "SHUTDOWN":
+						w.Srv.ShutdownNfs()
+						continue
+					case "STATS":
+						w.Srv.WriteOpStats(io.Discard)
+						w.Srv.ResetOpStats()
+						continue
+					}
 					inv := vrt.Steps()
 					r := fsx.Exec(w.Srv, o, h, h2)
-					hist = append(hist, lin.Op{Client: ci, Inv: inv, Ret: vrt.Steps(), In: concIn{Op: o, H: h, H2: h2}, Out: concOut{R: r}})
+					record(&hist, lin.Op{Client: ci, Inv: inv, Ret: vrt.Steps(), In: concIn{Op: o, H: h, H2: h2}, Out: concOut{R: r}})
 					if r.OK() && r.FH != nil && (o.K == "CREATE" || o.K == "MKDIR" || o.K == "SYMLINK" || o.K == "LOOKUP") {
 						vars.Bind(o.BindName(), r.FH)
 					}
@@ -224,6 +234,13 @@ func concHarness(raw json.RawMessage, cfg vrt.Config) (vrt.Result, Outcome) {
 	}
 	return res, outc
 }
+
+// record is //go:norace: the history is harness state, handed from thread to
+// thread by the scheduler (which deliberately creates no happens-before edge in
+// the -race build).
+//
+//go:norace
+func record(h *[]lin.Op, op lin.Op) { *h = append(*h, op) }
 
 func init() {
 	RegisterHarness("nfs.conc", concHarness)
